@@ -1,6 +1,8 @@
 import FV.Props.Catalog
 import FV.IoSendSeq
-/-! # C09 — IO faults surface as errors (first instalment: one send) -/
+import FV.IoRecvRetry
+import FV.IoArb
+/-! # C09 — IO faults surface as errors; nothing is lost or duplicated by them -/
 namespace FV.Props
 open FV
 
@@ -46,6 +48,27 @@ theorem C09_read_error_keeps_bytes (d : Dict) (b b' : RBuf) (rest rest' : Bytes)
     simp only [Prod.mk.injEq, true_and] at h
     obtain ⟨h2, h3, h4⟩ := h
     exact ⟨by rw [← h2]; exact hocc, h3.symm, h4.symm⟩
+
+/-- **C09 (c).** For every well-formed message type with `MIN_SIZE > 0`, every list of messages, every buffer ≥ 2·largest message,
+every script of positive read sizes **with failing reads anywhere in it**: a receiver that calls `recv` again after each
+`Err(Read(_))` obtains exactly the sent messages, each once, in order, then `Closed` — a transient error loses nothing, duplicates
+nothing, and never turns into a fault or `OutOfMemory`. -/
+theorem C09_receiver_retries_deliver (t : Ty) (h : t.WF) (hmin : 0 < t.dict.minSize) (msgs : List Bytes)
+    (hmsgs : ∀ m ∈ msgs, ∀ a, a % t.dict.align = 0 → t.dict.validate ⟨a, m⟩ = .ok () ∧ t.dict.size ⟨a, m⟩ = .ok m.length)
+    (base cap : Nat) (hbase : base % t.dict.align = 0) (hcap : 0 < cap) (hfit : ∀ m ∈ msgs, 2 * m.length ≤ cap)
+    (evs : List ReadEv) (hevs : CoversF evs ((flat msgs).length + 1)) :
+    recvLoopRetry t.dict (msgs.length + 1) evs ⟨base, cap, 0, []⟩ (flat msgs) = msgs.map .msg ++ [.closed] := by
+  apply recv_delivers_retry t.dict hmin msgs evs ⟨base, cap, 0, []⟩ (flat msgs)
+  · intro m hm
+    exact ⟨isMsg_of_valid t h hmin m (hmsgs m hm), hfit m hm⟩
+  · exact hcap
+  · exact ⟨hbase, Nat.zero_mod _, by simp⟩
+  · rfl
+  · simpa using hevs
+
+/-- non-vacuity: two `u16` messages; the first read fails, the third read fails in the middle of the second message -/
+example : recvLoopRetry u16.dict 3 [.fail, .deliver 1, .deliver 3, .fail, .deliver 9, .fail, .deliver 9] ⟨0, 4, 0, []⟩ [1,0,2,0] =
+    [.msg [1,0], .msg [2,0], .closed] := by decide +kernel
 
 example : (writeAll [1,2,3] [.fail, .accept 3] 0 [] 0).out = .err ∧ (writeAll [1,2,3] [.fail, .accept 3] 0 [] 0).used = 1 := by decide
 end FV.Props
